@@ -40,7 +40,7 @@ type Counterexample struct {
 
 // writeReplay records a failed obligation and tries to obtain a failing input on the real code.
 func writeReplay(w *World, prop string, r vcResult) replayResult {
-	dir := filepath.Join(verifDir, "replays", prop)
+	dir := filepath.Join(outDir, "replays", prop)
 	os.MkdirAll(dir, 0o755)
 	path := filepath.Join(dir, sanitizeFile(r.vc.Name)+".json")
 	smt := filepath.Join(dir, sanitizeFile(r.vc.Name)+".smt2")
@@ -69,6 +69,10 @@ func writeReplay(w *World, prop string, r vcResult) replayResult {
 
 // runOverlayTest injects testSrc as <pkgdir>/verif_replay_test.go and runs it.
 func runOverlayTest(w *World, pkg *ssa.Package, testSrc string, timeout time.Duration) (string, error) {
+	return runOverlayTestArgs(w, pkg, testSrc, timeout)
+}
+
+func runOverlayTestArgs(w *World, pkg *ssa.Package, testSrc string, timeout time.Duration, extra ...string) (string, error) {
 	dir := w.pkgDir(pkg)
 	tmp, err := os.MkdirTemp("", "govc-replay-*")
 	if err != nil {
@@ -83,7 +87,10 @@ func runOverlayTest(w *World, pkg *ssa.Package, testSrc string, timeout time.Dur
 	os.WriteFile(ovf, ob, 0o644)
 	ctx, cancel := context.WithTimeout(context.Background(), timeout+30*time.Second)
 	defer cancel()
-	cmd := exec.CommandContext(ctx, "go", "test", "-overlay", ovf, "-vet=off", "-count=1", "-timeout", fmt.Sprintf("%ds", int(timeout.Seconds())), "-run", "^TestVerifReplay$", "-v", ".")
+	args := []string{"test", "-overlay", ovf, "-vet=off", "-count=1", "-timeout", fmt.Sprintf("%ds", int(timeout.Seconds())), "-run", "^TestVerifReplay$", "-v"}
+	args = append(args, extra...)
+	args = append(args, ".")
+	cmd := exec.CommandContext(ctx, "go", args...)
 	cmd.Dir = dir
 	cmd.Env = append(os.Environ(), "GOFLAGS=-mod=mod", "GOPROXY=off")
 	var out bytes.Buffer
@@ -472,4 +479,106 @@ func searchCounterexample(w *World, prop string, r vcResult) *Counterexample {
 	return nil
 }
 
-var propFalsifiers = map[string]func(w *World, fn *ssa.Function, r vcResult) *Counterexample{}
+var propFalsifiers = map[string]func(w *World, fn *ssa.Function, r vcResult) *Counterexample{
+	"C19": raceFalsifier,
+}
+
+const raceTestTmpl = `package %s
+
+import (
+	"fmt"
+	"sync"
+	"testing"
+)
+
+func TestVerifReplay(t *testing.T) {
+	strs := %s
+	e := &Ecosystem{}
+	var vs []*Version
+	for _, s := range strs {
+		if v, err := e.NewVersion(s); err == nil && len(vs) < 12 {
+			vs = append(vs, v)
+		}
+	}
+	var rs []*VersionRange
+	for _, s := range strs {
+		if r, err := e.NewVersionRange(s); err == nil && len(rs) < 12 {
+			rs = append(rs, r)
+		}
+	}
+	// sequential reference results
+	ref := map[string]int{}
+	for i, a := range vs {
+		for j, b := range vs {
+			ref[fmt.Sprint(i, ",", j)] = a.Compare(b)
+		}
+	}
+	var wg sync.WaitGroup
+	bad := make(chan string, 64)
+	for g := 0; g < 8; g++ {
+		wg.Add(1)
+		go func(g int) {
+			defer wg.Done()
+			for rep := 0; rep < 20; rep++ {
+				for i, a := range vs {
+					for j, b := range vs {
+						if a.Compare(b) != ref[fmt.Sprint(i, ",", j)] {
+							select {
+							case bad <- fmt.Sprintf("Compare(%%q,%%q) changed under concurrency", a.String(), b.String()):
+							default:
+							}
+						}
+					}
+					for _, r := range rs {
+						_ = r.Contains(a)
+						_ = r.String()
+					}
+					_, _ = e.NewVersion(a.String())
+				}
+				for _, r := range rs {
+					_, _ = e.NewVersionRange(r.String())
+				}
+			}
+		}(g)
+	}
+	wg.Wait()
+	close(bad)
+	for m := range bad {
+		fmt.Println("VERIF-CX nondeterminism", m)
+	}
+	fmt.Println("VERIF-DONE versions", len(vs), "ranges", len(rs))
+}
+`
+
+// raceFalsifier runs the package's API concurrently on shared values under the race detector.
+func raceFalsifier(w *World, fn *ssa.Function, r vcResult) *Counterexample {
+	pkg := fn.Pkg
+	if pkg == nil || pkg.Pkg.Scope().Lookup("Ecosystem") == nil || pkg.Pkg.Scope().Lookup("Version") == nil {
+		return nil
+	}
+	src := fmt.Sprintf(raceTestTmpl, pkg.Pkg.Name(), goStringSlice(harvestStrings(w, pkg, true)))
+	out, _ := runOverlayTestArgs(w, pkg, src, 180*time.Second, "-race")
+	cx := &Counterexample{How: "real API called from 8 goroutines on shared values under go test -race", Output: truncate(lastLines(out, 25), 3000)}
+	if strings.Contains(out, "DATA RACE") {
+		cx.Confirmed = true
+		cx.Observed = "race detector: DATA RACE"
+		if i := strings.Index(out, "WARNING: DATA RACE"); i >= 0 {
+			cx.Output = truncate(out[i:], 3000)
+		}
+		return cx
+	}
+	if strings.Contains(out, "concurrent map") {
+		cx.Confirmed = true
+		cx.Observed = "runtime: concurrent map access"
+		return cx
+	}
+	for _, ln := range strings.Split(out, "\n") {
+		if strings.HasPrefix(ln, "VERIF-CX ") {
+			cx.Confirmed = true
+			cx.Observed = strings.TrimPrefix(ln, "VERIF-CX ")
+			return cx
+		}
+	}
+	cx.Observed = "no race observed"
+	return cx
+}
